@@ -4,14 +4,14 @@ CONSTANTS
   MaxMsgs = 3
   MaxPerPub = 2
   MaxReads = 0
-  OccSet = {TRUE, FALSE}
+  OccSet = {TRUE}
   BatchSet = {2}
-  PathSet = {"async", "sync"}
-  MaxPauses = 1
+  PathSet = {"async"}
+  MaxPauses = 0
   MaxRestarts = 0
-  Kinds = {"waive", "stale", "equal", "future", "neg"}
-  Pols = {"leader", "none"}
-  Vias = {"api"}
+  Kinds = {"waive", "equal"}
+  Pols = {"leader"}
+  Vias = {"api", "natsq", "plain"}
   MaxHolds = 0
   MaxSnaps = 0
   MaxInstalls = 0
